@@ -20,7 +20,8 @@ import (
 )
 
 type c03Case struct {
-	Src vstat.Q `json:"src"`
+	Src   vstat.Q `json:"src"`
+	NoDet bool    `json:"no_determinism_check,omitempty"` // constructed shapes: one compile only
 }
 
 // dumpObject renders everything a compile produces, canonically.
@@ -108,6 +109,16 @@ func runC03(c c03Case) (*vstat.Failure, c03Res) {
 		return vstat.Failf("empty-error-list", "Compile returned an error with no text"), res
 	}
 	// determinism
+	if c.NoDet {
+		o2 := o
+		_ = o2
+		if o.obj != nil {
+			res.class = "accepted"
+		} else {
+			res.class = c03ErrClass(o.err.Error())
+		}
+		return nil, res
+	}
 	o2, done := compileWithDeadline(src, deadline)
 	if !done {
 		res.hang = true
@@ -127,19 +138,21 @@ func runC03(c c03Case) (*vstat.Failure, c03Res) {
 	} else {
 		// the statement is about the verdict and the produced code; the order of error
 		// lines is not part of it (it follows map iteration order in the checker)
-		e := o.err.Error()
-		switch {
-		case strings.Contains(e, "exceeded maximum recursion depth") || strings.Contains(e, "too deep"):
-			res.class = "depth-limit-error"
-		case strings.Contains(e, "syntax error"):
-			res.class = "parser-error"
-		case strings.Contains(e, "Unexpected input") || strings.Contains(e, "Unterminated") || strings.Contains(e, "unterminated"):
-			res.class = "lexer-error"
-		default:
-			res.class = "checker-error"
-		}
+		res.class = c03ErrClass(o.err.Error())
 	}
 	return nil, res
+}
+
+func c03ErrClass(e string) string {
+	switch {
+	case strings.Contains(e, "exceeded maximum recursion depth") || strings.Contains(e, "too deep"):
+		return "depth-limit-error"
+	case strings.Contains(e, "syntax error"):
+		return "parser-error"
+	case strings.Contains(e, "Unexpected input") || strings.Contains(e, "Unterminated") || strings.Contains(e, "unterminated"):
+		return "lexer-error"
+	}
+	return "checker-error"
 }
 
 var c03Corpus []string
@@ -330,6 +343,37 @@ func TestC03(t *testing.T) {
 				}
 			}
 		}
+		// 2b. constructed shapes: every builtin applied to every combination of
+		// argument forms, and every statement form over every operand form, in a
+		// program whose declarations are all used (so that the checker does not stop
+		// at an unused declaration and code generation is reached)
+		nshape := 0
+		stop := false
+		c03Shapes(vstat.Thorough(), func(kind, src string) bool {
+			nshape++
+			if nshape%shards != shard {
+				return true
+			}
+			c := c03Case{Src: vstat.Q(src), NoDet: nshape%8 != 0}
+			f, res := runC03(c)
+			record(c, res)
+			st.Class("shape:" + kind)
+			if res.class != "" {
+				st.Class("shape-" + res.class)
+			}
+			if f != nil {
+				if res.hang {
+					hangExit(c, f)
+				}
+				st.Violate(t, f, c, "shape")
+				stop = true
+				return false
+			}
+			return true
+		})
+		if stop {
+			return
+		}
 		var sample c03Case
 		st.Extra("corpus_programs", len(corpus))
 		// 3. generated
@@ -412,4 +456,95 @@ func TestC03(t *testing.T) {
 		})
 		_ = sample
 	})
+}
+
+
+// c03Forms are operand forms of every syntactic and type class.
+var c03Forms = []string{
+	`"s"`, `/re(\d+)/`, `X`, `"a" + X`, `X + "a"`, `/r/ + X`, `X + Y`, `$1`, `$0`, `$nope`,
+	`c`, `d["k"]`, `d`, `g`, `t`, `h`, `1`, `1.5`, `-1`, `1h`, `c + 1`, `"a" + "b"`, `$1 + "a"`, `(X)`,
+	`getfilename()`, `timestamp()`, `1 < 2`, `$1 =~ /x/`, `undefined_name`,
+}
+
+const c03Prelude = "const X /a(\\d+)/\nconst Y /b/\ncounter c\ncounter d by k\ngauge g\ntext t\nhistogram h buckets 1, 2\n"
+const c03Uses = "/q/ + X + Y {\n  c++\n  d[\"k\"]++\n  g = 1\n  t = \"s\"\n  h = 1.0\n}\n"
+
+// c03Shapes enumerates constructed programs; emit returns false to stop.
+func c03Shapes(thorough bool, emit func(kind, src string) bool) {
+	prog := func(body string) string {
+		return c03Prelude + "/(\\d+) (?P<w>\\w+)/ {\n  " + body + "\n}\n" + c03Uses
+	}
+	builtins := []string{"int", "float", "string", "bool", "len", "tolower", "subst", "strtol", "strptime", "settime", "timestamp", "getfilename"}
+	ctx := []string{"g = %s", "t = %s", "d[%s]++", "%s {\n  }"}
+	for _, b := range builtins {
+		var calls []string
+		calls = append(calls, b+"()")
+		for _, a := range c03Forms {
+			calls = append(calls, b+"("+a+")")
+		}
+		multi := b == "subst" || b == "strtol" || b == "strptime"
+		for _, a := range c03Forms {
+			for i2, a2 := range c03Forms {
+				if !thorough && !multi && i2 > 2 {
+					break // one-argument builtins: a few two-argument calls suffice in the quick tier
+				}
+				calls = append(calls, b+"("+a+", "+a2+")")
+			}
+		}
+		if b == "subst" || thorough {
+			third := []string{`"c"`, `$1`, `X`}
+			if thorough {
+				third = c03Forms
+			}
+			for _, a := range c03Forms {
+				for _, a2 := range c03Forms {
+					for _, a3 := range third {
+						calls = append(calls, b+"("+a+", "+a2+", "+a3+")")
+					}
+				}
+			}
+		}
+		for ci, call := range calls {
+			cx := ctx
+			if !thorough {
+				cx = ctx[ci%len(ctx) : ci%len(ctx)+1]
+			}
+			for _, c := range cx {
+				if !emit("builtin:"+b, prog(strings.Replace(c, "%s", call, 1))) {
+					return
+				}
+			}
+		}
+	}
+	stmts := []string{"del %s", "del %s after 1h", "%s++", "%s--", "%s = %s", "%s += %s", "@%s {\n  }", "%s {\n  } else {\n  }", "%s && %s {\n  }", "%s || %s {\n  }", "%s[%s]++", "%s[%s][%s] = %s", "~%s {\n  }", "c = %s ** %s", "g = %s %% %s", "t = %s >> %s", "%s =~ %s {\n  }", "%s !~ %s {\n  }"}
+	for _, sf := range stmts {
+		n := strings.Count(sf, "%s")
+		idx := make([]int, n)
+		for {
+			body := sf
+			for k := 0; k < n; k++ {
+				body = strings.Replace(body, "%s", c03Forms[idx[k]], 1)
+			}
+			if !emit("stmt:"+sf[:min(len(sf), 12)], prog(body)) {
+				return
+			}
+			// odometer; forms beyond the second operand vary only in the thorough tier
+			k := 0
+			for k < n {
+				lim := len(c03Forms)
+				if k >= 2 && !thorough {
+					lim = 2
+				}
+				idx[k]++
+				if idx[k] < lim {
+					break
+				}
+				idx[k] = 0
+				k++
+			}
+			if k == n {
+				break
+			}
+		}
+	}
 }
